@@ -54,6 +54,7 @@ type c04call struct {
 	timeout time.Duration // >0: DoTimeout
 	mode    int           // streamed bodies: read all / read the first bytes then CloseBodyStream / close unread
 	after   time.Duration // sleep before the call (virtual)
+	post    int           // >0: POST with a request body of that many bytes (larger than the write buffer: the request write reaches the connection in several Writes)
 }
 
 type c04cfg struct {
@@ -67,6 +68,8 @@ type c04cfg struct {
 	attempts    int           // MaxIdemponentCallAttempts (default 1)
 	callers     [][]c04call
 	beh         map[string]c04beh
+	writeBuf    int           // WriteBufferSize (0 = default 4096); smaller than a request head: every request write hits the connection inside Request.Write
+	wstall      time.Duration // /v only: slow-peer fault dimension, any connection Write may block for that long (mcrt.Env, one deviation each)
 	vconn       bool // connections to the thread-less serial server model (c04_vserver_test.go) instead of PipeConns + server thread
 }
 
@@ -187,7 +190,7 @@ func c04body1(cfg c04cfg) func() {
 	return func() {
 		o := &c04obs{earlyConn: map[int]bool{}}
 		mcrt.SetUserData(o)
-		vs := &c04vServer{beh: func(id string) c04beh { return cfg.beh[id] }}
+		vs := &c04vServer{beh: func(id string) c04beh { return cfg.beh[id] }, wstall: cfg.wstall}
 		o.vs = vs
 		dial := func(string) (net.Conn, error) {
 			if cfg.vconn {
@@ -202,14 +205,14 @@ func c04body1(cfg c04cfg) func() {
 		var hc *HostClient
 		var pl *PipelineClient
 		if cfg.pipeline {
-			pl = &PipelineClient{Addr: "h:80", Dial: dial, MaxConns: cfg.maxConns, MaxPendingRequests: cfg.maxPending, Logger: c04nopLogger{}, ReadTimeout: cfg.readTimeout}
+			pl = &PipelineClient{Addr: "h:80", Dial: dial, MaxConns: cfg.maxConns, MaxPendingRequests: cfg.maxPending, Logger: c04nopLogger{}, ReadTimeout: cfg.readTimeout, WriteBufferSize: cfg.writeBuf}
 		} else {
 			at := cfg.attempts
 			if at == 0 {
 				at = 1
 			}
 			hc = &HostClient{Addr: "h:80", Dial: dial, MaxConns: cfg.maxConns, StreamResponseBody: cfg.stream, MaxResponseBodySize: cfg.maxBody,
-				ReadTimeout: cfg.readTimeout, MaxConnWaitTimeout: cfg.waitTimeout, MaxIdemponentCallAttempts: at}
+				ReadTimeout: cfg.readTimeout, MaxConnWaitTimeout: cfg.waitTimeout, MaxIdemponentCallAttempts: at, WriteBufferSize: cfg.writeBuf}
 			hc.connsCleanerRun = true // the idle-connection cleaner is C18's subject; keep it out of this system
 		}
 		var wg msync.WaitGroup
@@ -238,6 +241,10 @@ func c04do(o *c04obs, cfg *c04cfg, hc *HostClient, pl *PipelineClient, c c04call
 	req, resp := &Request{}, &Response{}
 	req.SetRequestURI("http://h/" + c.id)
 	req.Header.Set("X-Id", c.id)
+	if c.post > 0 {
+		req.Header.SetMethod(MethodPost)
+		req.SetBody(bytes.Repeat([]byte{'q'}, c.post))
+	}
 	var err error
 	switch {
 	case pl != nil && c.timeout > 0:
@@ -494,4 +501,22 @@ func c04scenarios(add func(name string, qb, tb int, tf bool, cfg c04cfg)) {
 	add("pipeline/3callers/do/v", 1, 2, false, c04cfg{vconn: true, pipeline: true, maxConns: 1, maxPending: 2,
 		callers: [][]c04call{{{id: "A"}}, {{id: "B", after: ms}}, {{id: "C", after: 2 * ms}}},
 		beh:     map[string]c04beh{"A": {split: true, delay: sec, nested: true}, "B": {chunked: true}, "C": {}}})
+	// --- slow peer: virtual time passes INSIDE a request write (any connection Write may block for 2 s = one deviation),
+	// so a call's deadline can expire after its request bytes started to reach the wire and before the write returns.
+	// Either the write buffer is smaller than a request head, or the request body is larger than the default buffer.
+	add("pipeline/1caller-3calls/write-stalls/smallbuf/v", 2, 3, false, c04cfg{vconn: true, pipeline: true, maxConns: 1, maxPending: 2, writeBuf: 32, wstall: 2 * sec,
+		callers: one(c04call{id: "A", timeout: sec}, c04call{id: "B", timeout: 5 * sec}, c04call{id: "C"}),
+		beh:     map[string]c04beh{"A": {nested: true, split: true}, "B": {chunked: true}, "C": {}}})
+	add("pipeline/1caller-2calls/write-stalls/bigbody/v", 1, 2, true, c04cfg{vconn: true, pipeline: true, maxConns: 1, maxPending: 2, wstall: 2 * sec,
+		callers: one(c04call{id: "A", timeout: sec, post: 5000}, c04call{id: "B", timeout: 5 * sec}),
+		beh:     map[string]c04beh{"A": {}, "B": {}}})
+	add("pipeline/2callers/write-stalls/smallbuf/v", 1, 2, true, c04cfg{vconn: true, pipeline: true, maxConns: 1, maxPending: 2, writeBuf: 32, wstall: 2 * sec,
+		callers: [][]c04call{{{id: "A", timeout: sec}}, {{id: "B", timeout: 5 * sec, after: ms}}},
+		beh:     map[string]c04beh{"A": {nested: true, split: true}, "B": {}}})
+	add("host/plain/dotimeout/write-stalls/v", 2, 3, true, c04cfg{vconn: true, maxConns: 1, writeBuf: 32, wstall: 2 * sec, attempts: 2,
+		callers: one(c04call{id: "A", timeout: sec}, c04call{id: "B", timeout: 5 * sec}),
+		beh:     map[string]c04beh{"A": {nested: true, split: true}, "B": {}}})
+	add("host/plain/2callers/write-stalls/bigbody/v", 1, 2, true, c04cfg{vconn: true, maxConns: 1, wstall: 2 * sec, waitTimeout: 10 * sec,
+		callers: [][]c04call{{{id: "A", timeout: sec, post: 5000}}, {{id: "B", timeout: 5 * sec}}},
+		beh:     map[string]c04beh{"A": {}, "B": {chunked: true}}})
 }
